@@ -133,7 +133,7 @@ Section D.
     destruct (Nat.ltb_spec (length bs') (length ms')); [lia|]. rewrite Hmr'. cbn [negb].
     destruct (Z.leb_spec (s_v sg) 0); [lia|]. destruct (Z.leb_spec n (s_v sg)); [lia|]. cbn [orb].
     rewrite Hlhs. cbn [bind]. rewrite Hr0'. cbn [bind]. rewrite Hbs. cbn [bind].
-    destruct (Z.leb_spec (s_e sg) (two (le CS - 1))); [lia|].
+    destruct (Z.leb_spec (s_e sg) (two (le CS - 1))); [lia|]. destruct (Z.leb_spec (two (le CS)) (s_e sg)); [lia|]. cbn [orb].
     f_equal. apply Z.eqb_eq. rewrite Heq.
     pose proof (pow_mod_range _ _ _ _ Hbs) as Hbsr.
     rewrite !rem_mod_nonneg by first [lia | repeat apply Z.mul_nonneg_nonneg; lia].
